@@ -20,14 +20,17 @@ type requestStream struct {
 	reader          *bufio.Reader
 	totalBytesRead  int
 	chunkLeft       int
-	chunkedEOF      bool
+	// contentLength is the framing the body arrived with. The header it came
+	// from belongs to the handler, which may change or reset it.
+	contentLength int
+	chunkedEOF    bool
 }
 
 // fullyRead reports whether the whole framed request body has been consumed
 // from the connection, i.e. whether the next byte on the connection belongs
 // to the next request.
 func (rs *requestStream) fullyRead() bool {
-	contentLength := rs.header.ContentLength()
+	contentLength := rs.contentLength
 	if contentLength == -1 {
 		return rs.chunkedEOF
 	}
@@ -108,6 +111,7 @@ func acquireRequestStream(b *bytebufferpool.ByteBuffer, r *bufio.Reader, h bodyS
 	rs.prefetchedBytes = bytes.NewReader(b.B)
 	rs.reader = r
 	rs.header = h
+	rs.contentLength = h.ContentLength()
 	return rs
 }
 
@@ -115,6 +119,7 @@ func releaseRequestStream(rs *requestStream) {
 	rs.prefetchedBytes = nil
 	rs.totalBytesRead = 0
 	rs.chunkLeft = 0
+	rs.contentLength = 0
 	rs.chunkedEOF = false
 	rs.reader = nil
 	rs.header = nil
